@@ -115,6 +115,32 @@ pub enum Mode {
 /// One history: build over an optional pre-existing file, then `nsteps` appends (with
 /// `restart`: after the first append the appender may be dropped and rebuilt in append mode).
 pub fn body(mode: Mode, pre_process: bool, nsteps: usize, restart: bool, witness: bool) {
+    body_gen(mode, pre_process, nsteps, restart, witness, None, None)
+}
+
+/// Constant-size family (DESIGN.md 9.8, rule 23): with `lens` / `pre_fixed` the record lengths and
+/// the amount of pre-existing content are instance parameters, so that every copy on the write
+/// path has a constant size; the decisions (or the trigger's limit), the open mode and the
+/// restart stay solver variables.
+pub fn body_sized(mode: Mode, pre_process: bool, lens: &'static [usize], pre: usize, restart: bool, witness: bool) {
+    body_gen(mode, pre_process, lens.len(), restart, witness, Some(lens), Some(pre))
+}
+
+/// As `body_sized` in plan mode, with the decisions of the first consultations fixed by the
+/// instance (`prefix`) and only the remaining ones left to the solver: the state before the last
+/// append is then a concrete reachable appender state (writer open or not, file rolled away or not).
+pub fn body_prefixed(pre_process: bool, lens: &'static [usize], pre: usize, prefix: &'static [bool], witness: bool) {
+    unsafe {
+        PREFIX = Some(prefix);
+    }
+    body_gen(Mode::Plan, pre_process, lens.len(), false, witness, Some(lens), Some(pre));
+    unsafe {
+        PREFIX = None;
+    }
+}
+static mut PREFIX: Option<&'static [bool]> = None;
+
+pub fn body_gen(mode: Mode, pre_process: bool, nsteps: usize, restart: bool, witness: bool, lens: Option<&'static [usize]>, pre_fixed: Option<usize>) {
     fs::reset();
     #[cfg(kani)]
     crate::wfile::reset();
@@ -127,7 +153,10 @@ pub fn body(mode: Mode, pre_process: bool, nsteps: usize, restart: bool, witness
         LEN_MISMATCH = false;
     }
     // pre-existing content
-    let pre = sym::below(3) as usize;
+    let pre = match pre_fixed {
+        Some(p) => p,
+        None => sym::below(3) as usize,
+    };
     let pre_bytes = [0xA1u8, 0xA2];
     if pre > 0 {
         fs::put(active, &pre_bytes[..pre]);
@@ -137,7 +166,16 @@ pub fn body(mode: Mode, pre_process: bool, nsteps: usize, restart: bool, witness
     let min_size = sym::below(4) as u64;
     for k in 0..8 {
         unsafe {
-            DECIDE[k] = if mode == Mode::Plan { sym::any_bool() } else { false };
+            DECIDE[k] = match PREFIX {
+                Some(p) if k < p.len() => p[k],
+                _ => {
+                    if mode == Mode::Plan {
+                        sym::any_bool()
+                    } else {
+                        false
+                    }
+                }
+            };
         }
     }
     let mk_policy = || -> Box<dyn Policy> {
@@ -192,7 +230,10 @@ pub fn body(mode: Mode, pre_process: bool, nsteps: usize, restart: bool, witness
             }
             check(active, &m_active, m_alen);
         }
-        let len = sym::below(MAXREC as u8 + 1) as usize;
+        let len = match lens {
+            Some(l) => l[k],
+            None => sym::below(MAXREC as u8 + 1) as usize,
+        };
         unsafe {
             REC_LEN = len;
             REC_VAL = 1 + k as u8;
@@ -259,7 +300,8 @@ pub fn body(mode: Mode, pre_process: bool, nsteps: usize, restart: bool, witness
         }
     }
     cover!(rolled_any, "at least one rotation happened");
-    cover!(!rolled_any && m_alen.unwrap_or(0) > 2, "no rotation, several bytes in the active file");
+    let prefix_rolls = unsafe { matches!(PREFIX, Some(p) if p.iter().any(|&b| b)) };
+    cover!(prefix_rolls || (!rolled_any && (m_alen.unwrap_or(0) > 2 || lens.is_some())), "no rotation, several bytes in the active file");
     if witness {
         assert!(false, "WITNESS");
     }
@@ -304,6 +346,52 @@ harnesses! {
         #[cfg_attr(kani, kani::stub(<log4rs::encode::pattern::PatternEncoder as log4rs::encode::Encode>::encode, crate::util::stub_pattern_encode_cut))]
         #[cfg_attr(kani, kani::stub(log4rs::encode::pattern::PatternEncoder::new, crate::util::stub_pattern_new_cut))]
     }
+    // constant-size family
+    #[kani::unwind(10)]
+    fn sized_plan_post_2x1() { body_sized(Mode::Plan, false, &[2, 1], 1, false, false) }
+    #[kani::unwind(10)]
+    fn sized_plan_post_2x1_witness() { body_sized(Mode::Plan, false, &[2, 1], 1, false, true) }
+    #[kani::unwind(10)]
+    fn sized_plan_post_2() { body_sized(Mode::Plan, false, &[2], 1, false, false) }
+    #[kani::unwind(10)]
+    fn sized_size_2() { body_sized(Mode::Size, false, &[2], 1, false, false) }
+    // two and three appends, earlier decisions fixed, the last one symbolic
+    #[kani::unwind(10)]
+    fn pfx_post_2x1_keep() { body_prefixed(false, &[2, 1], 1, &[false], false) }
+    #[kani::unwind(10)]
+    fn pfx_post_2x1_roll() { body_prefixed(false, &[2, 1], 1, &[true], false) }
+    #[kani::unwind(10)]
+    fn pfx_post_2x1_keep_witness() { body_prefixed(false, &[2, 1], 1, &[false], true) }
+    #[kani::unwind(10)]
+    fn pfx_post_1x0x2_keep_keep() { body_prefixed(false, &[1, 0, 2], 2, &[false, false], false) }
+    #[kani::unwind(10)]
+    fn pfx_post_2x2x2_roll_roll() { body_prefixed(false, &[2, 2, 2], 0, &[true, true], false) }
+    #[kani::unwind(10)]
+    fn pfx_post_3x0_roll() { body_prefixed(false, &[3, 0], 2, &[true], false) }
+    #[kani::unwind(10)]
+    fn pfx_pre_2x1_keep() { body_prefixed(true, &[2, 1], 1, &[false], false) }
+    #[kani::unwind(10)]
+    fn pfx_pre_2x1_roll() { body_prefixed(true, &[2, 1], 1, &[true], false) }
+    #[kani::unwind(10)]
+    fn pfx_post_1x0x2_roll_keep() { body_prefixed(false, &[1, 0, 2], 2, &[true, false], false) }
+    #[kani::unwind(10)]
+    fn pfx_pre_1x2x1_keep_roll() { body_prefixed(true, &[1, 2, 1], 0, &[false, true], false) }
+    #[kani::unwind(10)]
+    fn sized_startup_2() { body_sized(Mode::StartUp, true, &[2], 2, false, false) }
+    #[kani::unwind(10)]
+    fn sized_startup_2_empty() { body_sized(Mode::StartUp, true, &[2], 0, false, false) }
+    #[kani::unwind(10)]
+    fn sized_size_3_pre2() { body_sized(Mode::Size, false, &[3], 2, false, false) }
+    #[kani::unwind(10)]
+    fn sized_plan_pre_2() { body_sized(Mode::Plan, true, &[2], 1, false, false) }
+    #[kani::unwind(10)]
+    fn sized_plan_pre_2x1() { body_sized(Mode::Plan, true, &[2, 1], 1, false, false) }
+    #[kani::unwind(10)]
+    fn sized_size_3x2x1() { body_sized(Mode::Size, false, &[3, 2, 1], 0, false, false) }
+    #[kani::unwind(10)]
+    fn sized_startup_1x2() { body_sized(Mode::StartUp, true, &[1, 2], 2, false, false) }
+    #[kani::unwind(10)]
+    fn sized_plan_post_1x0x2_restart() { body_sized(Mode::Plan, false, &[1, 0, 2], 2, true, false) }
     #[kani::unwind(10)]
     fn roll_plan_post_1() { body(Mode::Plan, false, 1, false, false) }
     #[kani::unwind(10)]
